@@ -27,6 +27,7 @@
 #define TAG_ENC(t) ((a_uptr)(t))
 #define TAG_DEC(p) ((int)((p)&1u))
 #define KIND "rbt"
+#define SPLIT_TAG color
 #define T_HEAD a_rbt_head
 #define T_TAIL a_rbt_tail
 #define T_NEXT a_rbt_next
@@ -54,6 +55,7 @@
 #define TAG_ENC(t) ((a_uptr)((t) + 1))
 #define TAG_DEC(p) ((int)((p)&3u) - 1)
 #define KIND "avl"
+#define SPLIT_TAG factor
 #define T_HEAD a_avl_head
 #define T_TAIL a_avl_tail
 #define T_NEXT a_avl_next
@@ -124,7 +126,12 @@ static void materialise(proj const *p)
     {
         nd[k].node.left = ptr_of(p->left[k]);
         nd[k].node.right = ptr_of(p->right[k]);
+#ifdef SPLIT_LAYOUT /* separate parent / tag fields (small-pointer targets; forced with -DA_SIZE_POINTER=1) */
+        nd[k].node.parent = ptr_of(p->par[k]);
+        nd[k].node.SPLIT_TAG = (p->root == k || p->par[k]) ? p->tag[k] : 0;
+#else
         nd[k].node.parent_ = (a_uptr)ptr_of(p->par[k]) | (a_uptr)(p->root == k || p->par[k] ? TAG_ENC(p->tag[k]) : 0);
+#endif
     }
     root.node = ptr_of(p->root);
 }
@@ -141,7 +148,11 @@ static void project(proj *p, unsigned char const *member)
         p->left[k] = id_of(nd[k].node.left);
         p->right[k] = id_of(nd[k].node.right);
         p->par[k] = id_of(T_PARENT(&nd[k].node));
+#ifdef SPLIT_LAYOUT
+        p->tag[k] = (int)nd[k].node.SPLIT_TAG;
+#else
         p->tag[k] = TAG_DEC(nd[k].node.parent_);
+#endif
     }
 }
 
